@@ -90,6 +90,8 @@ pub struct State {
     pub compile_version: i32,
     pub completed_version: Option<i32>,
     pub requests_sent: u8,
+    /// retrigger polls the running compilation will make
+    pub checks_this_compile: u8,
     /// which thread moved last (0 = task, 1 = worker), for label ordering only
     pub running: u8,
 }
@@ -98,6 +100,9 @@ pub struct Model {
     pub script: Vec<Ev>,
     /// number of retrigger polls inside one complete compilation (calibrated on the real server)
     pub abort_checks: u8,
+    /// number of retrigger polls of a compilation whose text equals the text of the last
+    /// successfully completed one (the compiler re-uses its caches; calibrated as well)
+    pub abort_checks_cached: u8,
 }
 
 fn ev_name(e: Ev) -> &'static str {
@@ -126,6 +131,7 @@ impl Model {
             compile_version: 0,
             completed_version: None,
             requests_sent: 0,
+            checks_this_compile: 0,
             running: 0,
         }
     }
@@ -324,6 +330,11 @@ impl Model {
             }
             Wpc::GotRequest => {
                 n.compile_version = s.doc_version;
+                n.checks_this_compile = if s.completed_version == Some(s.doc_version) {
+                    self.abort_checks_cached
+                } else {
+                    self.abort_checks
+                };
                 Wpc::StartClearRetrigger
             }
             Wpc::StartClearRetrigger => {
@@ -332,7 +343,7 @@ impl Model {
             }
             Wpc::SetCompiling => {
                 n.is_compiling = true;
-                if self.abort_checks == 0 {
+                if s.checks_this_compile == 0 {
                     Wpc::FinishSuccess
                 } else {
                     Wpc::AbortCheck(1)
@@ -341,7 +352,7 @@ impl Model {
             Wpc::AbortCheck(k) => {
                 if s.retrigger {
                     Wpc::FinishFailed
-                } else if k >= self.abort_checks {
+                } else if k >= s.checks_this_compile {
                     Wpc::FinishSuccess
                 } else {
                     Wpc::AbortCheck(k + 1)
